@@ -359,6 +359,61 @@ func c09Supersede(c *h.Ctx) {
 			return
 		}
 	}
+	// the same with a timeout configured: the superseded set-up's timeout must not fire it later either
+	{
+		const K = 12
+		var wg sync.WaitGroup
+		var mu sync.Mutex
+		for k := 0; k < K; k++ {
+			wg.Add(1)
+			go func(k int, seed int64) {
+				defer wg.Done()
+				g := newGate(1)
+				n1 := 2 + int(seed%4)
+				ids1 := idsN(n1, "ta")
+				g.m.Setup(21, partsMap(ids1))
+				for _, id := range ids1[:int(seed/8)%n1] {
+					g.m.Ready(id)
+				}
+				time.Sleep(time.Duration(seed%300) * time.Microsecond)
+				ids2 := idsN(1+int(seed/64)%3, "tb")
+				g.m.Setup(22, partsMap(ids2))
+				complete := (seed/512)%2 == 0
+				if complete {
+					for _, id := range ids2 {
+						atomic.AddInt64(&g.issued, 1)
+						g.m.Ready(id)
+					}
+				}
+				time.Sleep(2300 * time.Millisecond) // both timeouts (1 s) have passed
+				g.mu.Lock()
+				fs := append([]gateFire{}, g.fires...)
+				g.mu.Unlock()
+				mu.Lock()
+				defer mu.Unlock()
+				if c.Failed() {
+					return
+				}
+				w := map[string]interface{}{"first": ids1, "second": ids2, "second_completed_by_signals": complete, "fires": fmt.Sprintf("%+v", fs)}
+				n22 := 0
+				for _, f := range fs {
+					if f.gc == 21 {
+						c.Violate("C09/superseded-set-up-fired", "a set-up that was superseded while unfinished fired later (timeout 1 s): the callback reports game count 21", w)
+						return
+					}
+					if f.gc == 22 {
+						n22++
+					}
+				}
+				if n22 != 1 {
+					c.Violate("C09/fired-more-than-once", fmt.Sprintf("the superseding set-up (timeout 1 s) fired %d times within 2.3 s", n22), w)
+				}
+			}(k, r.Int63())
+		}
+		wg.Wait()
+		gens += 2 * K
+		c.Feature("supersede-unfinished-with-timeout")
+	}
 	c.Count("generations", int64(gens))
 	c.Feature("supersede-unfinished")
 	// a set-up issued right after the previous one completed: the finished one may fire (once, reporting
@@ -599,7 +654,7 @@ func init() {
 			return map[string]int{"quick": 60, "thorough": 1000}[tier]
 		},
 		RequiredFeatures: func(string) []string {
-			return []string{"orders:exhaustive<=4", "orders:random-5..10", "timeout-path", "supersede-unfinished", "rebuild-from-saved-state", "rebuild:mixed-ready-state", "concurrent-signals", "re-set-up-right-after-completion"}
+			return []string{"orders:exhaustive<=4", "orders:random-5..10", "timeout-path", "supersede-unfinished", "supersede-unfinished-with-timeout", "rebuild-from-saved-state", "rebuild:mixed-ready-state", "concurrent-signals", "re-set-up-right-after-completion"}
 		},
 		CaseTimeout: 200e9,
 		InProc:      3,
